@@ -166,3 +166,18 @@ def install_seams(mido):
     if not isinstance(p.random, RandomShim):
         p.random = RandomShim(p.random)
     return p.time, p.random
+
+
+class Endless(Exception):
+    """An iteration that should end after the pending messages did not."""
+
+
+def take(iterable, limit=20000):
+    """list(iterable), but an iteration that never ends (a generator that
+    keeps yielding, e.g. None for ever) raises Endless instead of hanging."""
+    out = []
+    for x in iterable:
+        out.append(x)
+        if len(out) > limit:
+            raise Endless(f'more than {limit} items, first {out[:3]!r}')
+    return out
